@@ -76,6 +76,7 @@ func C11(c *Ctx) {
 	c.R.Rule("C11-R7", "E3", "the call returns only after the watcher has ended", 1)
 	c.R.Rule("C11-R8", "E5", "hosts hand on the context they are given", 3)
 	c11HostContexts(c)
+	c.R.Rule("C11-R9", "E3", "an execution whose context has ended reports the timeout, whatever the runtime returned", 1)
 	exec := c.fn("interpreters/ecmascript", "Interpreter", "Exec")
 	if exec == nil {
 		return
@@ -562,6 +563,47 @@ func C11(c *Ctx) {
 		c.R.Check(ok, "C11-R7", "Exec: returns only after the watcher has ended", c.pos(watchGo), "the watcher signals as its last act and every return after its start first waits for the signal", why+": the goroutine started for the execution is still alive (and about to interrupt a finished runtime) when the call has returned")
 	} else {
 		c.R.Violate("C11-R7", "Exec: returns only after the watcher has ended", c.P.Pos(exec.Pos()), "no watcher goroutine identified")
+	}
+
+	// ---- R9: every successful return lies under a test that the context has not ended (a short program can finish
+	// before the interrupt is seen; the runtime can lose an interrupt)
+	{
+		n9, bad := 0, ""
+		for _, b := range exec.Blocks {
+			ret, ok := b.Instrs[len(b.Instrs)-1].(*ssa.Return)
+			if !ok || len(ret.Results) != 2 || !ssau.IsNilConst(ret.Results[1]) {
+				continue
+			}
+			n9++
+			tested := false
+			for _, ft := range flow.FactsAt(b) {
+				bo, isB := ft.Cond.(*ssa.BinOp)
+				if !isB || (bo.Op != token.EQL && bo.Op != token.NEQ) {
+					continue
+				}
+				var v ssa.Value
+				switch {
+				case ssau.IsNilConst(bo.Y):
+					v = bo.X
+				case ssau.IsNilConst(bo.X):
+					v = bo.Y
+				}
+				cl, isC := v.(*ssa.Call)
+				if !isC || !cl.Common().IsInvoke() || cl.Common().Method.Name() != "Err" || !isContext(cl.Common().Value.Type()) {
+					continue
+				}
+				if !traces(cl.Common().Value, ctxP) {
+					continue
+				}
+				if (bo.Op == token.EQL) == ft.True && flow.Reachable(runCall.Block(), cl.Block(), nil) {
+					tested = true
+				}
+			}
+			if !tested {
+				bad = c.pos(ret)
+			}
+		}
+		c.R.Check(bad == "" && n9 > 0, "C11-R9", "Exec: success only if the context has not ended", c.P.Pos(exec.Pos()), "every return without an error lies under ctx.Err() == nil, tested after the program ran", "Exec can report success ("+bad+") although its context has ended: a short action or guard finishes before the interrupt is seen (an already expired deadline), and goja drops an interrupt that arrives while an iterator is being closed — the step goes on as if nothing had happened")
 	}
 
 	// ---- R4
